@@ -55,6 +55,15 @@ def scenarios(tier):
                     jobs.append((common.variant(scn, '/overlap', rp=True),
                                  1 if quick else 2, 40 if quick else 1200,
                                  1, 'join', ai + 0.5))
+                if sched == 'default_mem' and ai == 0:
+                    # two refresh jobs of one join overlapping: the second
+                    # is scheduled while the first is being processed (the
+                    # DefaultScheduler only suppresses a duplicate of a job
+                    # nobody has captured yet) and overtakes it between its
+                    # unlocked read of the join and the named lock
+                    jobs.append((common.variant(scn, '/overlap', rp=True),
+                                 2 if quick else 3, 40 if quick else 1200,
+                                 1, 'join', ai + 0.6))
     for name, (prog, target) in wfgen.reverse_shapes(
             3 if quick else 4).items():
         n = wfgen.program_size(prog)
@@ -76,7 +85,7 @@ def scenarios(tier):
 def main(tier):
     rep = common.Report(PROP, tier)
     jobs = scenarios(tier)
-    deadline = time.time() + (200 if tier == 'quick' else 1500)
+    deadline = time.time() + (300 if tier == 'quick' else 1500)
     res = common.parallel_map(common.explore_job,
                               [j[:4] for j in jobs], deadline=deadline)
     for klass in ('join', 'reverse'):
@@ -84,9 +93,10 @@ def main(tier):
         rep.add_explore_results([jobs[i] for i in idx],
                                 [res[i] for i in idx], klass)
     rep.assumptions = [
-        'transactions are atomic steps: the named locks around join '
-        'creation / refresh only matter when transactions overlap under '
-        'READ COMMITTED, which is not explored',
+        'transactions are atomic steps except in the /overlap scenarios, '
+        'where a transaction may be overtaken between its reads and its '
+        'first write / named lock (READ COMMITTED): join creation and '
+        'refresh against branch completions and against a second refresh',
         'one instance of every inbound task per run (DAG programs)',
     ]
     return rep.finish(
